@@ -202,6 +202,11 @@ IDENTITY_LIKE = {
     "core::clone::Clone::clone": (0,),
     "alloc::borrow::ToOwned::to_owned": (0,),
     "alloc::string::ToString::to_string": (0,),
+    "alloc::string::String::into_boxed_str": (0,),
+    "alloc::str::<impl str>::into_string": (0,),
+    "alloc::str::<impl str>::into_boxed_bytes": (0,),
+    "alloc::string::String::as_str": (0,),
+    "alloc::string::String::into_bytes": (0,),
     "core::ops::try_trait::Try::branch": (0,),
     "core::ops::try_trait::FromResidual::from_residual": (0,),
     "core::option::Option::map": (0, 1),
